@@ -188,7 +188,7 @@ def check_case(run, case, tier='quick'):
     import random
     rng = random.Random(case['hseed'])
     name, path = gstream.materialise(case['spec'], 'c15')
-    sn = session.new_session_name('c15') + rng.choice(['a', 's', 'v', '.s', 'x', '_1'])       # session names are free text: also ones ending in the letters of '.sav'
+    sn = session.new_session_name('c15') + rng.choice(['a', 's', 'v', '.s', 'x', '_1', '.sav', '.saved.1', '.sav.bak'])       # session names are free text: also ones ending in the letters of '.sav'
     try:
         Ures = session.run_main(['-r', name, '-s', sn])
         if Ures.exc is not None or not Ures.pops:
